@@ -26,8 +26,8 @@ UNKNOWN == -1
 
 Traces == JsonDeserialize(IOEnv.TRACE_FILE)
 
-VARIABLES calls, dirty, tid, l
-tvars == <<calls, dirty, tid, l>>
+VARIABLES calls, dirty, moved, tid, l
+tvars == <<calls, dirty, moved, tid, l>>
 
 Tr == Traces[tid]
 E  == Tr[l]
@@ -43,7 +43,7 @@ IsEvent(name) == l <= Len(Tr) /\ E.ev = name /\ l' = l + 1 /\ UNCHANGED tid
 Finite(e) == e # INF /\ e # NAN /\ e # UNKNOWN
 
 TraceInit == /\ tid \in 1..Len(Traces) /\ l = 2 /\ Traces[tid][1].ev = "New"
-             /\ calls = {} /\ dirty = FALSE
+             /\ calls = {} /\ dirty = FALSE /\ moved = FALSE
 
 TraceCall ==
   /\ IsEvent("Call")
@@ -51,10 +51,16 @@ TraceCall ==
                   <<"C03:cost-called-at-point-violating-constraints", N.randomclip \/ E.consfix>> >>
      IN Probe(cl) /\ AllTrue(cl)
   /\ calls' = calls \cup {<<E.pid, E.tot>>}
-  /\ UNCHANGED dirty
+  /\ UNCHANGED <<dirty, moved>>
 
+(* `dirty`: some part of the objective was (re)installed mid-run;  `moved`: that part was the ranges *)
+(* or the constraints, which let a solver move stored points (into the new box / onto the          *)
+(* constraint: Nelder-Mead constrains its best vertex and keeps the stored energy) without         *)
+(* re-evaluating them -- C03 promises the reported solution only for constraints in force from the *)
+(* first iteration.  A penalty installed mid-run moves nothing.                                    *)
 TraceSet == /\ IsEvent("Set")
             /\ dirty' = TRUE
+            /\ moved' = (moved \/ E.what \in {"ranges", "cons"})
             /\ UNCHANGED calls
 
 (* Readings (DESIGN section 4): C01 quantifies over settings fixed before the first    *)
@@ -74,10 +80,12 @@ TraceBoundary ==
   /\ LET b == E.best
          clean == ~dirty
          cl == <<
+           \* `calls` holds <<point, cost+penalty under the objective in force at that call>>: a best reported
+           \* after a mid-run change of penalty/constraints is still an evaluated point with the energy it got then
            <<"C01:reported-best-was-never-evaluated",
-               (Finite(b.e) /\ ~N.randomclip /\ clean) => \E c \in calls : c[1] = b.pid>>,
+               (Finite(b.e) /\ ~N.randomclip /\ ~moved) => \E c \in calls : c[1] = b.pid>>,
            <<"C01:reported-energy-is-not-cost-plus-penalty-at-reported-point",
-               (Finite(b.e) /\ ~N.randomclip /\ clean) => <<b.pid, b.e>> \in calls>>,
+               (Finite(b.e) /\ ~N.randomclip /\ ~moved) => <<b.pid, b.e>> \in calls>>,
            <<"C01:member-energy-is-not-the-objective-at-the-member",
                (clean /\ N.members /\ ~N.randomclip) => \A i \in DOMAIN E.members : MemberOK(E.members[i]) /\ MemberInsideOK(E.members[i])>>,
            <<"C01:best-worse-than-initial-guess",
@@ -89,7 +97,7 @@ TraceBoundary ==
            <<"C03:reported-energy-is-not-the-energy-of-the-constrained-point",
                (N.cfs /\ ~N.randomclip /\ clean /\ Finite(b.e) /\ b.inbox /\ b.consfix) => b.e = b.tot>> >>
      IN Probe(cl) /\ AllTrue(cl)
-  /\ UNCHANGED <<calls, dirty>>
+  /\ UNCHANGED <<calls, dirty, moved>>
 
 TraceNext == TraceCall \/ TraceSet \/ TraceBoundary
 TraceSpec == TraceInit /\ [][TraceNext]_tvars
